@@ -83,8 +83,35 @@ def gen_case(ctx, rng, shared_keys=False, dates=False):
             node["input"] = B.fmt(t, offsets[n % len(offsets)])
             n += 1
         owners = {}
+    date_verdicts = {}
+    if dates == "verdicts":
+        # every element its OWN instant and notation, judged by a shipped date-time constraint (written as key or as time condition):
+        # the verdict reported for the element must be the verdict on ITS entered input as entered
+        from vf.ref import berlin as B
+
+        for node in T.walk(spec):
+            if node["k"] != "F":
+                continue
+            r = rng.random()
+            day = rng.randrange(B.T_1996 // 86400, B.T_2038 // 86400 - 1)
+            if r < 0.5:
+                t = day * 86400 + rng.choice([22, 23, 4, 5]) * 3600  # 00:00 / 06:00 German local time in winter or summer (or neither)
+            elif r < 0.7:
+                t = day * 86400 + rng.choice([22, 23, 4, 5]) * 3600 + rng.randint(1, 59)
+            else:
+                t = rng.randrange(B.T_1996, B.T_2038)
+            off = rng.choice([0, 0, 3600, 7200, -3600, 19800, -18000, 34200])
+            key, text = rng.choice([("931", "[931]"), ("932", "[932]"), ("933", "[933]"), ("934", "[934]"), ("935", "[935]"), ("932", "[UB1]"), ("934", "[UB2]"), ("932", "[ UB1 ]")])
+            ind = rng.choice(["MUSS", "X", "KANN"])
+            node["x"] = {"parts": [[ind, T.CANON_SPELLING[ind], ["fc", key], " " + text]]}
+            node["input"] = B.fmt(t, off, z=(off == 0 and rng.random() < 0.3))
+            if rng.random() < 0.5:
+                node["vt"] = rng.choice(["DATETIME", "DATETIME", "TEXT"])
+            sod = B.local_seconds_of_day(t)
+            date_verdicts[node["d"]] = [key, text, {"931": off == 0, "932": sod == 0, "933": sod == 0, "934": sod == 21600, "935": sod == 21600}[key]]
+        owners = {}
     asg = {k: rng.choice("FFFU") for k in RC}
-    return {"spec": spec, "owners": owners, "asg": asg, "soll": rng.random() < 0.5, "schedule_seed": rng.randrange(1 << 30), "shared": shared_keys, "stale": rng.random() < 0.5, "constant_objects": shared_keys and rng.random() < 0.6}
+    return {"date_verdicts": date_verdicts, "spec": spec, "owners": owners, "asg": asg, "soll": rng.random() < 0.5, "schedule_seed": rng.randrange(1 << 30), "shared": shared_keys, "stale": rng.random() < 0.5, "constant_objects": shared_keys and rng.random() < 0.6}
 
 
 async def check_tree(ctx, case):
@@ -145,6 +172,18 @@ async def check_tree(ctx, case):
                 return
     if any(isinstance(i, str) and i[:2] in ("19", "20") and "T" in i for i in inputs.values()):
         ctx.count("trees_with_same_instant_in_different_notations")
+    # ---- shipped date-time constraints: the verdict reported for an element is the verdict on its own input AS ENTERED
+    for d, (key, text, verdict) in (case.get("date_verdicts") or {}).items():
+        if d not in got:
+            continue
+        res = got[d].validation_result
+        if str(res.requirement_validation).startswith("IS_FORBIDDEN"):
+            continue
+        ctx.count("date_verdicts_checked")
+        ctx.count("date_verdicts_checked_" + ("fulfilled" if verdict else "unfulfilled"))
+        if res.format_validation_fulfilled is not verdict:
+            ctx.violation("verdict-not-on-entered-input", f"data element {d} with expression {text!r} and entered input {inputs[d]!r}: format_validation_fulfilled={res.format_validation_fulfilled!r}, the constraint {key} on the input as entered gives {verdict} ({getattr(res, 'format_error_message', None)!r:.200})")
+            return
     # ---- second oracle: the element's result in the tree run equals the result of validating the element on its own
     for seg in (n for n in T.walk(spec) if n["k"] == "S"):
         if seg["d"] not in got:
@@ -181,7 +220,7 @@ async def run(ctx):
     rng = ctx.rng
     E.install()
     for i in range(ctx.budget(330, 33_000)):
-        case = gen_case(ctx, rng, shared_keys=i % 4 == 3, dates=i % 6 == 1)
+        case = gen_case(ctx, rng, shared_keys=i % 4 == 3, dates="verdicts" if i % 6 == 5 else i % 6 == 1)
         await check_tree(ctx, case)
         if i % 90 == 0:
             ctx.sample({"free_text_elements": [(n["d"], T.expr_string(n["x"]), n["input"]) for n in T.walk(case["spec"]) if n["k"] == "F"][:8], "owners": dict(list(case["owners"].items())[:8])}, cls="tree")
